@@ -19,6 +19,7 @@ HERE = os.path.dirname(os.path.abspath(__file__))
 VERIF = os.path.dirname(HERE)
 sys.path.insert(0, HERE)
 from mutations import MUTATIONS  # noqa: E402
+from benign import BENIGN  # noqa: E402
 
 
 def run_check(prop, repo):
@@ -33,7 +34,10 @@ def main():
     in_place = '--in-place' in args
     prop = args[args.index('--prop') + 1] if '--prop' in args else None
     mid = args[args.index('--id') + 1] if '--id' in args else None
-    muts = [m for m in MUTATIONS if (prop is None or m['prop'] == prop) and (mid is None or m['id'] == mid)]
+    muts = [dict(m, benign=False) for m in MUTATIONS if (prop is None or m['prop'] == prop) and (mid is None or m['id'] == mid)]
+    muts += [dict(m, benign=True) for m in BENIGN if (prop is None or m['prop'] == prop) and (mid is None or m['id'] == mid)]
+    if '--only-benign' in args:
+        muts = [m for m in muts if m['benign']]
     repo = '/repo'
     scratch = None
     if not in_place:
@@ -58,16 +62,19 @@ def main():
                 open(path, 'w').write(src)
             fired = rc == 1 and 'VIOLATION property=%s' % m['prop'] in out
             named = all(x in out for x in m.get('expect', []))
-            status = 'FIRED' if fired and named else ('FIRED-OTHER' if fired else ('BUILD' if rc == 2 else 'MISSED'))
+            if m['benign']:
+                status = 'SILENT' if rc == 0 else ('FALSE-ALARM' if fired else 'BUILD')
+            else:
+                status = 'FIRED' if fired and named else ('FIRED-OTHER' if fired else ('BUILD' if rc == 2 else 'MISSED'))
             results.append((m, status, ''))
             print('%-11s %s %-28s %.0fs %s' % (status, m['prop'], m['id'], time.time() - t0, m.get('why', '')))
-            if status != 'FIRED':
+            if status not in ('FIRED', 'SILENT'):
                 tail = [l for l in out.splitlines() if 'FAIL' in l or 'key=' in l or 'ANALYSIS' in l or 'error' in l][:12]
                 print('    ' + '\n    '.join(tail))
     finally:
         if scratch:
             shutil.rmtree(scratch, ignore_errors=True)
-    bad = [r for r in results if r[1] not in ('FIRED',)]
+    bad = [r for r in results if r[1] not in ('FIRED', 'SILENT')]
     print('selftest: %d mutations, %d fired as expected, %d not' % (len(results), len(results) - len(bad), len(bad)))
     return 1 if bad else 0
 
